@@ -72,13 +72,22 @@ theorem benign_noop (G : Table) (env : Env) (t : Tree) (op : Op)
 
 /-! ### rebind: one sealed target refuses the whole batch (pre-check) -/
 
+theorem flags_asLoopRoot (t : Tree) : (asLoopRoot t).flags?.isSome = t.flags?.isSome := by
+  cases t <;> rfl
+
 theorem rebindNode_sealed_target {G : Table} {env : Env} {t : Tree} {pairs : List (List Key × Tree)}
-    (r : Bool) (hpre : (G (loopEP t)).precheck = true) (h : anySealedTarget env t pairs = true) :
+    (r : Bool) (hpre : (G (loopEP t)).precheck = true) (h : anySealedTarget env (asLoopRoot t) pairs = true) :
     rebindNode G env t pairs r = (t, .err .perm) := by
   have h' := h
   simp only [anySealedTarget, List.any_eq_true] at h'
   obtain ⟨p, hmem, hst⟩ := h'
-  obtain ⟨f, hf⟩ := sealedTarget_symbolic hst
+  obtain ⟨f, hf⟩ : ∃ f, t.flags? = some f := by
+    obtain ⟨f', hf'⟩ := sealedTarget_symbolic hst
+    have := flags_asLoopRoot t
+    rw [hf'] at this
+    cases ht : t.flags? with
+    | none => simp [ht] at this
+    | some f => exact ⟨f, rfl⟩
   have hne : pairs.isEmpty = false := by
     cases pairs with
     | nil => simp at hmem
@@ -113,7 +122,8 @@ section Unprot
 variable {G : Table} {env : Env} {f : Flags} (hs : treatsAsSealed env f = false) (hw : writable env f = true)
 include hs hw
 
-theorem nodeStep_unprot (t : Tree) (op : Op) (hf : t.flags? = some f) (hr : op.isRebind = false) :
+theorem nodeStep_unprot (t : Tree) (op : Op) (hf : t.flags? = some f) (hr : op.isRebind = false)
+    (hi : ∀ c attrs, t = .obj f c attrs → treatsAsSealed env f.container = false) :
     (nodeStep G env t op).2 ≠ .err .perm := by
   have g : ∀ ep, guard G env f ep = none := fun ep => guard_none ep hs hw
   cases t with
@@ -122,7 +132,16 @@ theorem nodeStep_unprot (t : Tree) (op : Op) (hf : t.flags? = some f) (hr : op.i
     simp [flags?] at hf; subst hf
     cases op
     case lSetItem i v => show (lSetItem G env f' xs i v).2 ≠ _; simp only [lSetItem, g]; split <;> simp
-    case lSetSlice a b vs => show (lSetSlice G env f' xs a b vs).2 ≠ _; simp [lSetSlice, g]
+    case lSetSlice a b st vs =>
+      show (lSetSlice G env f' xs a b st vs).2 ≠ _
+      simp only [lSetSlice, g]; split
+      · simp
+      · split
+        · simp
+        · split <;> simp
+    case lDelSlice a b st =>
+      show (lDelSlice G env f' xs a b st).2 ≠ _
+      simp only [lDelSlice, g]; split <;> simp
     case lDelItem i => show (lDelItem G f' xs env i).2 ≠ _; simp only [lDelItem, g]; split <;> simp
     case lIAdd vs => show (lIAdd G env f' xs vs).2 ≠ _; simp [lIAdd, lExtend, g]
     case lIMul k => show (lIMul G env f' xs k).2 ≠ _; simp only [lIMul, lClear, lExtend, g]; split <;> simp
@@ -150,7 +169,7 @@ theorem nodeStep_unprot (t : Tree) (op : Op) (hf : t.flags? = some f) (hr : op.i
     simp [flags?] at hf; subst hf
     have hreb : ∀ us, (rebindNode G env (.dict f' kvs) (kvPairs us) false).2 ≠ .err .perm := by
       intro us
-      simp only [rebindNode, flags?, Bool.and_false, Bool.false_eq_true, if_false, g,
+      simp only [rebindNode, flags?, Bool.and_false, Bool.false_eq_true, if_false, g, asLoopRoot_dict,
         anySealedTarget_kv hs us, treeSetAll_kv_unprot G hs us kvs]
       simp
     cases op
@@ -178,10 +197,10 @@ theorem nodeStep_unprot (t : Tree) (op : Op) (hf : t.flags? = some f) (hr : op.i
     cases op
     case oSetAttr k v =>
       show (oSetAttr G env f' cls attrs k v).2 ≠ _
-      have gc : guard G env { sealed := f'.sealed, accW := true } .d_setitem = none := by
+      have gc : guard G env f'.container .d_setitem = none := by
         apply guard_none
-        · simpa [treatsAsSealed] using hs
-        · revert hw; simp only [writable]; split <;> simp
+        · exact hi cls attrs rfl
+        · revert hw; simp only [writable, Flags.container]; split <;> simp
       simp only [oSetAttr, g, gc]; split <;> simp
     case rebind ps => simp [Op.isRebind] at hr
     all_goals (show (_, Res.err Err.attr).2 ≠ _; simp)
@@ -227,7 +246,8 @@ theorem nodeStep_acc {G : Table} {env : Env} {f : Flags} (hA : AccGuarded G) (hw
     simp [flags?] at hf; subst hf
     cases op
     case lSetItem i v => exact of_eq_perm (by simp [nodeStep, lSetItem, guard_acc h1 hw])
-    case lSetSlice a b vs => exact of_eq_perm (by simp [nodeStep, lSetSlice, guard_acc h1 hw])
+    case lSetSlice a b st vs => exact of_eq_perm (by simp [nodeStep, lSetSlice, guard_acc h1 hw])
+    case lDelSlice a b st => exact of_eq_perm (by simp [nodeStep, lDelSlice, guard_acc h2 hw])
     case lDelItem i => exact of_eq_perm (by simp [nodeStep, lDelItem, guard_acc h2 hw])
     all_goals first | (simp [Op.isAccessor] at ha; done) | exact ⟨rfl, Or.inr rfl⟩
   | dict f' kvs =>
@@ -298,11 +318,12 @@ theorem rebindNode_acc_indep {G : Table} (h : RebindIgnoresAcc G) (env : Env) (s
     (t : Tree) (pairs : List (List Key × Tree)) (r : Bool) :
     rebindNode G { env with accStack := s } t pairs r = rebindNode G env t pairs r := by
   obtain ⟨h1, h2, h3⟩ := h
-  have hany : anySealedTarget { env with accStack := s } t pairs = anySealedTarget env t pairs := by
+  have hany : ∀ t', anySealedTarget { env with accStack := s } t' pairs = anySealedTarget env t' pairs := by
+    intro t'
     simp only [anySealedTarget]
     congr 1
     funext p
-    exact sealedTarget_acc_indep env s p.1 t
+    exact sealedTarget_acc_indep env s p.1 t'
   cases t with
   | leaf a => rfl
   | dict f kvs =>
@@ -329,7 +350,7 @@ mutual
     | .leaf _ => rfl
     | .dict f items => by simp [sealT, allFlags, sealKvs_deep b items]
     | .list f items => by simp [sealT, allFlags, sealList_deep b items]
-    | .obj f c attrs => by simp [sealT, allFlags, sealKvs_deep b attrs]
+    | .obj f c attrs => by simp [sealT, allFlags, sealKvs_deep b attrs, Flags.container]
   theorem sealList_deep (b : Bool) :
       (ts : List Tree) → allFlagsList (fun f => f.sealed == b) (sealList false b ts) = true
     | [] => rfl
@@ -344,9 +365,9 @@ mutual
   /-- Contents with all flags erased (what `seal` must not touch). -/
   def shape : Tree → Tree
     | .leaf a => .leaf a
-    | .dict _ items => .dict ⟨false, true⟩ (shapeKvs items)
-    | .list _ items => .list ⟨false, true⟩ (shapeList items)
-    | .obj _ c attrs => .obj ⟨false, true⟩ c (shapeKvs attrs)
+    | .dict _ items => .dict ⟨false, true, false⟩ (shapeKvs items)
+    | .list _ items => .list ⟨false, true, false⟩ (shapeList items)
+    | .obj _ c attrs => .obj ⟨false, true, false⟩ c (shapeKvs attrs)
   def shapeList : List Tree → List Tree
     | [] => []
     | t :: ts => shape t :: shapeList ts
@@ -380,7 +401,7 @@ mutual
     | .leaf _ => rfl
     | .dict f items => by simp [allFlags, h f, allFlagsKvs_of_forall h items]
     | .list f items => by simp [allFlags, h f, allFlagsList_of_forall h items]
-    | .obj f _ attrs => by simp [allFlags, h f, allFlagsKvs_of_forall h attrs]
+    | .obj f _ attrs => by simp [allFlags, h f, h f.container, allFlagsKvs_of_forall h attrs]
   theorem allFlagsList_of_forall {p : Flags → Bool} (h : ∀ f, p f = true) :
       (ts : List Tree) → allFlagsList p ts = true
     | [] => rfl
@@ -425,6 +446,46 @@ theorem sealedTarget_resolve (env : Env) (k : Key) :
     | some c =>
       simp only [hc] at hm ⊢
       exact sealedTarget_resolve env k rest c m f hm hf
+
+theorem sealedTarget_asLoopRoot (env : Env) (t : Tree) (k : Key) (tail : List Key) (hne : tail ≠ []) :
+    sealedTarget env (asLoopRoot t) (k :: tail) = sealedTarget env t (k :: tail) := by
+  rw [sealedTarget_cons _ _ _ _ hne, sealedTarget_cons _ _ _ _ hne]
+  cases t <;> first | rfl | (cases k <;> simp [asLoopRoot, child])
+
+/-- `rebind` with a pair that addresses a key of a node treated as sealed when the call starts:
+refused as a whole (own guard of an Object receiver, or the up-front check of all targets). -/
+theorem rebindNode_target_sealed {G : Table} {env : Env} {recv m : Tree} {q : List Key} {k : Key} {v : Tree}
+    {f : Flags} {pairs : List (List Key × Tree)} (r : Bool)
+    (hpre : (G (loopEP recv)).precheck = true) (hO : (G .o_rebind).directSealed = true)
+    (hm : resolve recv q = some m) (hf : m.flags? = some f) (hs : treatsAsSealed env f = true)
+    (hmem : (q ++ [k], v) ∈ pairs) :
+    rebindNode G env recv pairs r = (recv, .err .perm) := by
+  have hst : sealedTarget env recv (q ++ [k]) = true := by
+    rw [sealedTarget_resolve env k q recv m f hm hf]; exact hs
+  have hany_of : sealedTarget env (asLoopRoot recv) (q ++ [k]) = true →
+      anySealedTarget env (asLoopRoot recv) pairs = true := by
+    intro h
+    simp only [anySealedTarget, List.any_eq_true]
+    exact ⟨_, hmem, h⟩
+  cases q with
+  | nil =>
+    simp only [resolve, Option.some.injEq] at hm; subst hm
+    cases recv with
+    | leaf a => simp [flags?] at hf
+    | dict f' kvs => exact rebindNode_sealed_target r hpre (hany_of hst)
+    | list f' xs => exact rebindNode_sealed_target r hpre (hany_of hst)
+    | obj f' c attrs =>
+      simp only [flags?, Option.some.injEq] at hf; subst hf
+      have hne : pairs.isEmpty = false := by
+        cases pairs with
+        | nil => simp at hmem
+        | cons _ _ => rfl
+      unfold rebindNode
+      simp only [flags?, rebindEP, guard_prot hO hs, hne, Bool.false_and, Bool.false_eq_true, if_false]
+  | cons k1 rest =>
+    refine rebindNode_sealed_target r hpre (hany_of ?_)
+    rw [List.cons_append, sealedTarget_asLoopRoot env recv k1 (rest ++ [k]) (by simp)]
+    exact hst
 
 theorem nodeStep_rebind_acc_indep {G : Table} (h : RebindIgnoresAcc G) (env : Env) (s : List (Option Bool))
     (t : Tree) (pairs : List (List Key × Tree)) :
